@@ -468,6 +468,71 @@ def gen_histories(tier, rng, push_every=6, header_changes=False):
         yield Case(h.line(), cls="random-%depoch%s" % (epochs, "-push" if cfg.get("push") else ""))
 
 
+# metadata / sequence headers published while players wait for a key frame (F-08i, fixed): "J" marks a join point;
+# every "vsh" / "ash" / "hvsh" has new content (unique filler), "vsh_same" / "ash_same" repeat the previous content
+WAIT_SCENARIOS = {
+    # the new header arrives in the very call that ends the joiners' freshness (they get the OLD cached header first)
+    "same-call": ["vsh", "key", "inter", "J", "vsh", "inter", "ash", "meta", "inter", "key", "inter", "aac"],
+    "long-wait": ["meta", "vsh", "ash", "key", "inter", "J", "inter", "vsh", "inter", "ash", "aac", "meta_sdf", "inter", "key", "inter", "aac"],
+    "no-gop-yet": ["vsh", "J", "inter", "vsh", "aac", "ash", "inter", "key", "inter"],
+    # a header change has just dropped the cached GOPs: joiners wait although the GOP cache is on
+    "after-drop": ["vsh", "key", "inter", "vsh", "J", "inter", "ash", "vsh_same", "inter", "meta", "key", "aac"],
+    "staggered": ["vsh", "key", "J", "inter", "J", "vsh", "J", "ash", "inter", "J", "key", "inter"],
+    "hevc": ["hvsh", "hkey", "hinter", "J", "hvsh", "hinter", "ash", "meta", "hkey", "hinter"],
+    "audio-header": ["vsh", "ash", "key", "J", "aac", "ash", "aac", "ash_same", "inter", "key", "aac"],
+    "never-key": ["vsh", "J", "inter", "meta", "vsh", "ash", "inter", "aac", "vsh"],
+}
+
+
+def gen_wait_histories(tier, rng, counts=(1, 2, 3)):
+    """1..3 players of each kind (RTMP, HTTP-FLV, WebSocket-FLV) waiting for a key frame while metadata and
+    sequence headers are published, with the merge writer off / flushing every message / buffering, GOP cache 0/1/2"""
+    for sname in sorted(WAIT_SCENARIOS):
+        seq = WAIT_SCENARIOS[sname]
+        for n in counts:
+            for mw in (0, 1, 8192):
+                for gop in (0, 1, 2):
+                    c = dict(re=1, rg=gop, rm=0, fe=1, fg=gop, fm=0, tg=0, tm=0, mw=mw, rec=0)
+                    h = Hist(rng, c)
+                    h.start(pat=False)
+                    old = h.join("r")          # admitted from the start: shares the merge writer with the waiting ones
+                    joined = []
+                    nj = 0
+                    for idx, kind in enumerate(seq):
+                        if kind == "J":
+                            nj += 1
+                            per = 1 if sname == "staggered" else n
+                            for k in ("r", "f", "w"):
+                                for _ in range(per):
+                                    joined.append(h.join(k))
+                            continue
+                        h.pub(kind, ts=idx * 40, size=rng.choice([7, 20, 300, 5000]))
+                        if joined and idx == len(seq) - 3 and n == 2:
+                            h.leave(joined[0])
+                    yield Case(h.line(), cls="wait-%s" % sname)
+    if tier == "quick":
+        return
+    # random: players join anywhere, headers change anywhere
+    kinds = ["vsh", "ash", "meta", "inter", "inter", "aac", "key", "vsh_same", "ash_same", "meta_sdf"]
+    for k in range(1500):
+        gop = rng.choice([0, 0, 1, 2])
+        c = dict(re=1, rg=gop, rm=rng.choice([0, 1]), fe=1, fg=gop, fm=rng.choice([0, 2]), tg=0, tm=0, mw=rng.choice([0, 1, 300, 8192]), rec=0)
+        h = Hist(rng, c)
+        if rng.random() < 0.3:
+            h.join(rng.choice("rfw"))
+        h.start(pat=False)
+        h.pub("vsh", ts=0)
+        live = []
+        for idx in range(rng.randrange(4, 25)):
+            a = rng.random()
+            if a < 0.3:
+                live.append(h.join(rng.choice("rfw")))
+            elif a < 0.36 and live:
+                h.leave(live.pop(rng.randrange(len(live))))
+            h.pub(rng.choice(kinds), ts=40 + idx * 40, size=rng.choice([7, 20, 300, 5000]))
+        yield Case(h.line(), cls="wait-random")
+
+
 # ---------------------------------------------------------------------------
 # ground truth from the case line (independent of the Coq model)
 
